@@ -385,3 +385,21 @@ META["C12"] = {
     "floors": {"quick": {"round_trips": 350, "mutated_texts": 30000, "mutants_rejected": 15000, "distinct_nontrivial": 300},
                "thorough": {"round_trips": 6000, "mutated_texts": 1500000, "mutants_rejected": 700000, "distinct_nontrivial": 5000}},
 }
+
+
+META["C05"] = {
+    "level": "exploration",
+    "rule": "one-node Truncate graphs over arrays of 48-128 inputs; all 10 integer scalar types; divisors 2^k with k in {1, 2, w/2, w-3, "
+            "w-2} (quick) / every k in 1..w-2 (thorough) and, for signed types, {3, 5, 7, 10, 100, 1000, 2^(w/2)+-1}; inputs: range "
+            "boundaries of the documented domain, 0, +-1, multiples of the divisor +-1, then uniform values of the range (and |x| <= 2^20 "
+            "for the small-input claim on 64/128-bit types); owner in {party, shared, public} x outputs in {one party, two, all, "
+            "secret-shared} x inline mode; each case is executed by one global evaluator with several seeds and by three separate "
+            "parties; non-trivial = private input and at least one result vector checked; distinct by (type, divisor, configuration, draw)",
+    "assumptions": COMMON_ASSUMPTIONS + [
+        "oracle = integer arithmetic on the decoded inputs: floor quotient or floor quotient + 1 for 2^k; plaintext quotient +-1 for a "
+        "general divisor, with the documented wrap-around (+-2^w/d) classified and counted, and rejected for small inputs on wide types; "
+        "exact plaintext quotient for public inputs", M2_ASSUMPTION,
+    ],
+    "floors": {"quick": {"compiled": 2000, "elements_checked": 400000, "three_party_executions": 2000, "distinct_nontrivial": 1500},
+               "thorough": {"compiled": 20000, "elements_checked": 10000000, "three_party_executions": 40000, "distinct_nontrivial": 15000}},
+}
